@@ -339,7 +339,7 @@ where
     // it after this part of the stack is destroyed/overwritten/whatever.
 
     let map_ptr = unsafe {
-        mmap(
+        match mmap(
             None,
             NonZeroUsize::new_unchecked(size),
             MemoryProtection::PROT_READ | MemoryProtection::PROT_WRITE,
@@ -347,7 +347,15 @@ where
             MapAdditionalFlags::MAP_ANONYMOUS,
             None,
             0,
-        )?
+        ) {
+            Ok(ptr) => ptr,
+            Err(e) => {
+                // No thread will run, release what was set up for it
+                fn_dropper(fn_caller);
+                tsm.dealloc();
+                return Err(e.into());
+            }
+        }
     };
     #[cfg(feature = "verif-hooks")]
     crate::verif::gate(crate::verif::SPAWN_STACK_MAPPED, tsm.0 as usize);
